@@ -40,6 +40,10 @@ CHECKS = {
    text='Machine-checked (axiom-free): can_depend_on_incr (insertion renumbering is monotone on line identifiers, all depths) and the characterisation of the dependency rule. add_line_before / remove_line / set_line / replace_id are modelled in Gallina and compared exactly (ids, rules, citations, nesting) with ProofState on random well-numbered proofs; the results are judged by well_numbered. Every recorded step of the library proofs is replayed (first on a copy) and after every step: re-check with exactly the open gaps, last line = goal, contiguous numbering with earlier-visible citations, gap-free acceptance, export/parse_proof round trip, copy isolation. Partial: the individual methods are explored, not modelled.',
    note='Trusted: Coq kernel; correspondence harness; the recorded proofs as the source of realistic edit sequences.',
    design='7/C13'),
+ 'C14': dict(category='proof', technique='Coq proofs about the splice mechanism of apply_tactic (gap accounting of add_line_before / set_line, renumbering keeps rules) + exploration of search_method suggestions on every prefix of the recorded library proofs',
+   text='Machine-checked (axiom-free): inserting lines creates/removes no gap at any depth; overwriting a line changes the open gaps exactly by the old and new line, so a spliced tactic proof leaves the previous gaps other than the goal plus the gaps of its own proof term (what the suggestion advertises). Exploration: for every prefix state of the recorded proofs, up to 3 gaps and several fact selections, each suggestion of search_method is applied to a copy (declared open parameters supplied): it must succeed or raise ParameterQueryException; on success new open subgoals must be among the advertised ones, solving suggestions leave none, advertised facts appear. Partial: the ~25 search implementations are explored, not modelled.',
+   note='Trusted: Coq kernel; the exploration harness (state coverage = recorded proofs); parameter synthesis for `s` / `names` is heuristic (otherwise the case is counted as needs-parameter).',
+   design='7/C14'),
 }
 m = {
  'version': 1,
